@@ -253,14 +253,29 @@ def check_big(rec, site_key, variant=0, label=None):
     fn, spec = reg.KERNELS[site_key]
     site = label or site_key.split('/')[0]
     names = list(spec)
-    data_arg = next((n for n in names if isinstance(spec[n], reg.A)), None)
-    if data_arg is None:
+    if not any(isinstance(spec[n], reg.A | reg.Vv) for n in names):
         return
     base = {n: _scalar_value(spec[n], 0, 0, 0, variant) for n in names}
-    for size in BIG_SIZES:
+    fixed = OPTIONS.get(site_key, {}).get('fixed', {})
+    array_args = [n for n in names if isinstance(spec[n], reg.A | reg.Vv) and n not in fixed]
+    # which operands are long: each array operand alone (the others 0-d), and all of them together
+    choices = [array_args] if OPTIONS.get(site_key, {}).get('same_dims') else [[n] for n in array_args] + ([array_args] if len(array_args) > 1 else [])
+    for size, long_names in [(size, ln) for size in BIG_SIZES for ln in choices]:
         ramp = sc.linspace('x', 0.05, 3.0, size, unit='dimensionless', dtype='float64')
-        long_names = [n for n in names if isinstance(spec[n], reg.A)] if OPTIONS.get(site_key, {}).get('same_dims') else [data_arg]
-        bigs = {n: (ramp * base[n].astype('float64')).astype(base[n].dtype) for n in long_names}
+        data_arg = '+'.join(long_names)
+        bigs = {}
+        for n in long_names:
+            if isinstance(spec[n], reg.Vv):
+                # long array of vectors: lengths follow the ramp, directions swing in the horizontal plane (the vertical
+                # component keeps its sign and share, as for the small layouts)
+                v0 = np.asarray(base[n].value, dtype='float64')
+                k = np.arange(size, dtype='float64')
+                w = v0[None, :] * ramp.values[:, None]
+                if spec[n].kind != 'vacc':
+                    w = w + np.stack([0.2 * np.sin(0.001 * k), np.zeros(size), 0.1 * np.cos(0.0007 * k)], axis=1) * (np.linalg.norm(v0) + 1.0) * ramp.values[:, None]
+                bigs[n] = sc.vectors(dims=['x'], values=w, unit=base[n].unit)
+            else:
+                bigs[n] = (ramp * base[n].astype('float64')).astype(base[n].dtype)
         args = dict(base)
         args.update(bigs)
         sub = {'size': size, 'variant': variant, 'data_operand': data_arg}
@@ -270,7 +285,7 @@ def check_big(rec, site_key, variant=0, label=None):
             res = _outputs(fn(**args))
         except (sc.UnitError, sc.DTypeError):
             rec.cls('layout_refused_like_scalar')
-            return
+            continue
         step = 50_000
         for oname, var in res.items():
             parts = []
